@@ -93,8 +93,11 @@ def stepC27 (s : DS) (fs : List String) : DS × String :=
   | ["hdel", sid, path] => withObj s sid path hubDelete
   | ["hcompact", sid, path, del] => withObj s sid path (fun o => hubCompact o (del == "1"))
   | ["hsweep", sid, path] => withObj s sid path hubSweep
-  | "run" :: sid :: batch :: cap :: crash :: faults =>
+  | "run" :: sid :: inst :: batch :: cap :: crash :: faults =>
+    -- `inst` (new | same): a fresh Agent/process or the same long-lived Agent instance. The model does
+    -- not distinguish them: every pass starts with RecoverInFlight (C27_recover_every_pass).
     let crashAt : Option (Option Nat) := if crash == "-" then some none else (nat? crash).map some
+    let crashAt := if inst == "new" || inst == "same" then crashAt else none
     match nat? batch, nat? cap, crashAt, parseFaults faults with
     | some batch, some cap, some crashAt, some faults =>
       let cfg : Cfg := { maxAttempts := s.maxAttempts, batch := batch, cap := cap }
